@@ -14,3 +14,28 @@ Record c05_case := {
     closure has returned and no group goroutine survives the cancelled context - so: no hang, no leak. *)
 Definition c05_corr (c : c05_case) : bool := negb (cc_hang c) && Nat.eqb (cc_leaked c) 0.
 Definition c05_monitor (c : c05_case) : bool := negb (cc_hang c) && Nat.eqb (cc_leaked c) 0.
+
+(** ** the worker-limit list join with panicking closures (Model.JoinPanic): [jp_plan] says which element closures
+    panic (inside generated code, recovered), [jp_limit] is the worker limit (a server without one is run as a limit
+    of one slot per element), [jp_returned] whether the response function returned.  The model is run greedily -
+    dispatch whenever the loop can, otherwise let a running closure finish (the theorem
+    [C05_list_join_with_panics] is about every schedule). *)
+From GV Require Import Model.JoinPanic.
+Record jp_case := { jp_plan : list bool; jp_limit : nat; jp_returned : bool }.
+Fixpoint jgreedy (fuel : nat) (s : jstate) {struct fuel} : jstate :=
+  match fuel with
+  | O => s
+  | S f =>
+      match jstep true s JDispatch with
+      | Some s' => jgreedy f s'
+      | None => match jstep true s JReturn with
+                | Some s' => jgreedy f s'
+                | None => match jstep true s JPanic with Some s' => jgreedy f s' | None => s end
+                end
+      end
+  end.
+Definition jp_model (c : jp_case) : bool :=
+  jwait_enabled (jgreedy (2 * List.length (jp_plan c) + 1) (jinit (jp_plan c) (jp_limit c))).
+Definition jp_corr (c : jp_case) : bool := Bool.eqb (jp_model c) (jp_returned c).
+Definition jp_mon (c : jp_case) : bool := jp_returned c.
+Definition jp_monmodel (c : jp_case) : bool := jp_model c.
